@@ -101,6 +101,9 @@ CANARIES = [
     ('good_thomas', 'S', r'if width > height \{', 'if width > height + 1 {', 'new'),
     ('avx_raders', 'S', r'\.output_index_mapping\[self\.output_index_mapping\.len\(\) - 1\]', '.output_index_mapping[self.output_index_mapping.len()]', 'finalize_raders'),
     ('avx_raders', 'S', r'let index_chunk = self\.output_index_mapping\[i\];', 'let index_chunk = self.output_index_mapping[i + 2];', 'finalize_raders'),
+    ('simd_accessors_neon', 'S', r'vst1_f32\(ptr, low\);', 'vst1q_f32(ptr, low);', 'store_partial_lo_complex'),
+    ('simd_accessors_neon', 'S', r'verif_debug_assert\(this\.len\(\) >= index \+ 1\);\s*SseV::load1_complex', 'SseV::load_complex', 'load1_complex'),
+    ('simd_accessors_wasm', 'S', r'v128_load64_splat\(ptr\)', 'v128_load(ptr)', 'load1_complex'),
     ('sse_radix4', 'S', r'let twiddle_offset = num_vector_columns \* \(ROW_COUNT - 1\);', 'let twiddle_offset = num_vector_columns * ROW_COUNT;', 'perform_fft_immut'),
     ('partial_factors', 'S', r'power3: self\.power3 - divisor\.power3,', 'power3: self.power3 - divisor.power2,', 'divide_by'),
     ('prime_roots', 'S', r'divisor \+= 2;', 'divisor += 4;', 'distinct_prime_factors'),
